@@ -445,6 +445,7 @@ func interesting(pc *pCase) (bool, string) {
 //   "lazy-outside": a controller in a file no glob matches, in a package no glob touches but a matched route's type names
 //   "composite":    map / generic / slice-of-declared types in signatures (composite graph nodes)
 //   "twins":        controllers sharing a struct name across packages      "grouped": identifier lists in a signature
+//   "spread":       a controller with methods in another file than its struct
 //   "multi":        several controllers            "plain": the rest
 func featureClass(pc *pCase) string {
 	inside, outsidePk := map[string]bool{}, map[string]bool{}
@@ -499,6 +500,17 @@ func featureClass(pc *pCase) string {
 			grouped = true
 		}
 	}
+	// a controller whose methods live in another file than its struct (receiver and controller carry different file versions)
+	spread := false
+	fileOf := map[string]string{}
+	for _, c := range pc.Ctrls {
+		fileOf[c.ID] = c.File
+	}
+	for _, m := range pc.Methods {
+		if !out[m.Ctrl] && m.File != fileOf[m.Ctrl] {
+			spread = true
+		}
+	}
 	switch {
 	case lazy:
 		return "lazy-outside"
@@ -506,6 +518,8 @@ func featureClass(pc *pCase) string {
 		return "twins"
 	case grouped:
 		return "grouped"
+	case spread:
+		return "spread"
 	case composite:
 		return "composite"
 	case len(pc.Ctrls) >= 2:
